@@ -299,3 +299,46 @@ def run(ctx):
             ctx.ob("R-C13.6", fn, inst, ok, "result of %s is returned to the caller%s" % (name, " through %s" % ",".join(h[0] for h in rf.handlers) if rf.handlers else "") if ok
                    else "cannot see how the result of %s reaches the caller (chain %s)" % (name, rf.chain), fn.loc(b), nontrivial=ok is False)
     ctx.floor("R-C13.6", "Result-returning calls inside the journal writer", n, 36)
+
+    # ---- R-C13.7 the other ways to change the database refuse on a poisoned instance too: bulk ingestion (a write that
+    # bypasses the journal), keyspace creation and deletion (meta keyspace writes). They must look at the poison flag
+    # before they change anything; ingestion must actually HOLD the journal lock (the `?` on get_writer) when it looks.
+    entry_points = (("ingestion::Ingestion::<'a>::finish", ("finish",), True),
+                    ("db::Database::keyspace", ("keyspace::Keyspace::create_new", "meta_keyspace::MetaKeyspace::create_keyspace"), False),
+                    ("db::Database::delete_keyspace", ("meta_keyspace::MetaKeyspace::remove_keyspace",), False))
+    for fid, effects, needs_lock in entry_points:
+        fn = ctx.fn(fid, "R-C13.7")
+        if not fn:
+            continue
+        og = ctx.og(fn)
+        chk = R.call_blocks(fn, (R.IS_POISONED,))
+        eff = [b for b, t in fn.calls() if any(A.cname(t) == e or (e == "finish" and A.cname(t).endswith("::finish") and A.cname(t).startswith("lsm_tree::")) for e in effects)]
+        ok = False
+        detail = "%s never looks at the poison flag" % fid
+        if chk and eff:
+            # every effect is dominated by a check whose "poisoned" edge cannot reach it
+            ok = True
+            for e in eff:
+                good = False
+                for c in chk:
+                    sw = A.switch_after_call(fn, c)
+                    if sw is None or not A.dominates(fn, c, e):
+                        continue
+                    zero, true_t = A.bool_edges(fn, sw)
+                    if e not in A.reach(fn, true_t, avoid=list(zero)) or e in A.reach(fn, zero):
+                        if e not in A.reach(fn, true_t):
+                            good = True
+                if not good:
+                    ok = False
+            detail = "the poison flag is checked before anything is changed, and a poisoned instance is refused" if ok else "an effect of %s is reachable without / despite the poison check" % fid
+            if ok and needs_lock:
+                gs = R.j_guards(ctx, fn)
+                held = bool(gs) and all(A.must_held_at(fn, gs[0], c)[0] for c in chk) and all(A.must_held_at(fn, gs[0], e)[0] for e in eff)
+                if held and gs[0].site is not None:
+                    # Journal::get_writer returns a Result: it must be examined (`?` / match), not merely kept alive
+                    rf = A.result_flow(fn, gs[0].site)
+                    held = bool(rf.returned or rf.err_blocks) and not rf.swallowed
+                if not held:
+                    ok = False
+                    detail = "the journal lock is not actually held when the poison flag is checked / the tables are registered (e.g. the Result of get_writer() is dropped instead of unwrapped with `?`)"
+        ctx.ob("R-C13.7", fn, "refuses-on-a-poisoned-instance", ok, detail)
